@@ -162,6 +162,15 @@ func HarnessC13PollardRoundTrip() {
 			c01CheckRoots(q.GetRoots(), q.GetNumLeaves(), nv, "C13.pollard.restored.evolves")
 			// the restored forest keeps proving every live leaf after the block
 			c06ObservePollard(q, nrm, nv, nrm.liveSlots(), "C13.pollard.restored.evolved")
+			if verifParam("evolve2", 0) == 1 {
+				// and a second block on top (what the first one left behind is used by the next)
+				b2 := nrm.refBlock(nv, 1, 1)
+				verifAssert(q.Modify(c01Leaves(b2.adds, true), b2.hashes, b2.proof) == nil, "C13.pollard.restored.modify2")
+				nrm2 := nrm.apply(b2)
+				nv2 := nrm2.view()
+				c01CheckRoots(q.GetRoots(), q.GetNumLeaves(), nv2, "C13.pollard.restored.evolves2")
+				c06ObservePollard(q, nrm2, nv2, nrm2.liveSlots(), "C13.pollard.restored.evolved2")
+			}
 		}
 	}
 	verifReach("C13.pollard.roundtrip")
@@ -247,6 +256,14 @@ func HarnessC13MapRoundTrip() {
 			nv := nrm.view()
 			c01CheckRoots(q.GetRoots(), q.GetNumLeaves(), nv, "C13.map.restored.evolves")
 			c06ObserveMap(&q, nrm.liveSlots(), nrm, nv, nrm.liveSlots(), "C13.map.restored.evolved")
+			if verifParam("evolve2", 0) == 1 {
+				b2 := nrm.refBlock(nv, 1, 1)
+				verifAssert(q.Modify(c01Leaves(b2.adds, false), b2.hashes, b2.proof) == nil, "C13.map.restored.modify2")
+				nrm2 := nrm.apply(b2)
+				nv2 := nrm2.view()
+				c01CheckRoots(q.GetRoots(), q.GetNumLeaves(), nv2, "C13.map.restored.evolves2")
+				c06ObserveMap(&q, nrm2.liveSlots(), nrm2, nv2, nrm2.liveSlots(), "C13.map.restored.evolved2")
+			}
 		}
 	}
 	verifReach("C13.map.roundtrip")
